@@ -59,6 +59,14 @@ pub fn gen_history(r: &mut Rng, t: &DocTable, len: usize) -> Vec<Value> {
             json!({"op":"flush"})
         } else if x < 78 {
             json!({"op":"getmany","d":d})
+        } else if x < 81 {
+            // a call that FAILS (document never created): it must not disturb what was acknowledged before
+            let ghost = t.n();   // the all-0xFF synthetic id, never imported in these histories
+            if r.chance(1, 2) {
+                json!({"op":"policy","d":ghost,"kind":"only","filters":[["prefix",[0]]]})
+            } else {
+                json!({"op":"peer","d":ghost,"p":1 + r.below(3)})
+            }
         } else if x < 84 {
             json!({"op":"peer","d":d,"p":1 + r.below(3)})
         } else if x < 90 {
